@@ -278,7 +278,7 @@ class Lists:
                 if not is_int_value(ss):
                     # xs[::0] raises ValueError; negative symbolic strides are outside the subset and are excluded by an obligation
                     ex.raise_if(st, step.t == 0, 'ValueError')
-                    ex.oblige(st, 'slice.step_positive', step.t >= 1, kind='safety')
+                    ex.oblige(st, 'slice.step_positive', step.t >= 1, kind='safety', meta=dict(subset_guard=True))
                 return stride(ex, recv, step.t)
             if hi is None and lo is not None and L_items(recv) is None and _const(lo) >= 0 and (step is None or step.kind == 'int'):
                 # xs[c:] and xs[c::k] on a list of symbolic length: drop the first c elements, then stride
@@ -292,7 +292,7 @@ class Lists:
                     raise OutOfSubset('slice step %s' % ss)
                 if not is_int_value(ss):
                     ex.raise_if(st, step.t == 0, 'ValueError')
-                    ex.oblige(st, 'slice.step_positive', step.t >= 1, kind='safety')
+                    ex.oblige(st, 'slice.step_positive', step.t >= 1, kind='safety', meta=dict(subset_guard=True))
                 return stride(ex, rest, step.t)
             if step is None:
                 items = L_items(recv)
